@@ -8,7 +8,7 @@ COQ_FILES = ["Props/C09.v", "Obl/DispatchOk.v", "Obl/EnumsOk.v"]
 
 
 def correspondence(ctx):
-    n = 400 if ctx.tier == "thorough" else 50
+    n = 400 if ctx.tier == "thorough" else 52
     CC.run_sessions(ctx, "C09", n, lambda rng: dict(n_events=rng.choice([20,40]), burst=0.3, fault=0.05, bad=0.45), lambda rng: {})
 
 
